@@ -232,9 +232,9 @@ class ndpoly(numpy.ndarray):  # pylint: disable=invalid-name
         **kwargs: Any,
     ) -> Any:
         """Dispatch method for operators."""
-        if method == "reduce":
+        if method == "reduce" and ufunc in REDUCE_MAPPINGS:
             ufunc = REDUCE_MAPPINGS[ufunc]
-        elif method == "accumulate":
+        elif method == "accumulate" and ufunc in ACCUMULATE_MAPPINGS:
             ufunc = ACCUMULATE_MAPPINGS[ufunc]
         elif method != "__call__":
             raise FeatureNotSupported(f"Method '{method}' not supported.")
